@@ -26,3 +26,22 @@ prop("C09",
      trusted_base=["z3 5.1.0", "cvc5 1.0.3", "cvxpy solver contract (ellipsoids)"],
      not_decided=["behaviour within numerical tolerance of the boundary (solver / rounding error)",
                   "dimensions m > 4"])
+
+prop("C10",
+     level_text="RectangularConfidenceRegion.is_covered, EllipsoidalConfidenceRegion.is_covered and hyperrectangle_get_region_matrix are executed symbolically; the cvxpy program they build is proved pointwise equal to the specification's constraint set, and the returned boolean is proved to be the solver's feasibility verdict of that program on every path (both arms of the SolverError fallback).",
+     mode="unrolled: rectangles m in {1,2,3} (thorough 4), K in {1..m+1}; ellipsoids m in {2,3}; all real-valued inputs unbounded",
+     assumptions=[A_SOLVE],
+     trusted_base=["z3 5.1.0", "cvc5 1.0.3", "cvxpy solver contract: status/feasibility exact"],
+     not_decided=["numerical correctness of the LP/SOCP solver near the boundary and for tiny regions", "dimensions above those listed"])
+
+prop("C12",
+     level_text="PolyhedralConeOrder.dominates / OrderingCone.is_inside are proved equal to the facet-inequality definition (single and batched calls); preorder laws are lemmas over that contract; the bundled cones' constructors are executed symbolically and their geometry proved (orthant, 3-D cones, 2-D theta-cone with symbolic angle).",
+     mode="unrolled m in {1,2,3} (thorough 4), K up to m+1; theta symbolic; laws for one generic facet row",
+     trusted_base=["z3 5.1.0", "cvc5 1.0.3", "axiom: tangent addition formula instances", "numpy trig functions are the mathematical functions"],
+     not_decided=["ice-cream cone: the facet-tangency identity through the Rodrigues rotation is left open by both solvers (bounded numeric stand-in only)", "theta = 90 degrees exactly (pole of tan in real arithmetic)", "m > 4"])
+
+prop("C14",
+     level_text="Real bodies of both design spaces' update(), RectangularConfidenceRegion.update/intersect, EllipsoidalConfidenceRegion.update and hyperrectangle_check_intersection are executed symbolically against the specification for all real inputs; index subsets are enumerated for a 3-design space (all orders used: singletons, pairs, permutations), scale forms scalar / per-objective / per-design.",
+     mode="unrolled: m in {1,2,3}, design spaces with 3 designs, index lists enumerated; Model.predict by interface contract",
+     trusted_base=["z3 5.1.0", "interface contract: Model.predict(X (N,d)) -> means (N,m), covs (N,m,m)"],
+     not_decided=["that each concrete model's predict meets the interface contract for N = 1 (see C15: GP models squeeze the sample axis)"])
